@@ -1,17 +1,19 @@
 (* C12 — exported theorems only: each is closed by [exact] and followed by Print Assumptions.
    Reading aid:  e = (cgroup version, kind of every file, (child file, parent file) edges)
                  st = (files, ResourceCache);  hyps_ok = hierarchy valid at start and at target,
-                 no file twice in the batch, every file's parent in a strictly upper level, values
-                 well-formed;  coherent = every cache entry that can equal a target equals the file
+                 no file twice in the batch, the flattened batch lists every parent before its
+                 children (topo_ok; a level MAY hold a cgroup together with its children), values
+                 well-formed;  hyps_call = hyps_ok without the order condition;  coherent = every cache entry that can equal a target equals the file
                  (true of a fresh executor and preserved, see c12_invariant);
                  on_q = the file is cpu.max on cgroup v2. *)
 From Coq Require Import List ZArith Bool.
-From Verif Require Import C12.Model C12.Spec C12.Proofs_Lattice C12.Proofs_Hist C12.Proofs_Main.
+From Verif Require Import C12.Model C12.Spec C12.Reconcile C12.Proofs_Lattice C12.Proofs_Hist C12.Proofs_Rc C12.Proofs_Main.
 Import ListNotations.
 Open Scope Z_scope.
 
-(* crash points: after every prefix of the write sequence of LeveledUpdateBatch the hierarchy is
-   valid — all kinds of files, both cgroup versions, any tree, any coherent cache *)
+(* crash points: after every prefix of the write sequence of LeveledUpdateBatch (merge pass over the
+   levels top-down, exact pass over the levels bottom-up with every level walked backwards) the
+   hierarchy is valid — all kinds of files, both cgroup versions, any tree, any coherent cache *)
 Theorem c12_every_prefix_valid : forall e st levels,
   hyps_ok e (sfs st) levels = true -> coherent (scache st) (sfs st) ->
   forall pre suf, snd (leveled_update e st levels) = pre ++ suf ->
@@ -71,8 +73,8 @@ Theorem c12_batch_code : forall e st levels,
 Proof. exact main_batch_code. Qed.
 Print Assumptions c12_batch_code.
 
-(* all finite histories of LeveledUpdateBatch calls, BE cpuset recoveries and cache expiries on a
-   fresh executor: the
+(* all finite histories of LeveledUpdateBatch calls (arranged by the harness or by the modelled
+   caller cgreconcile), BE cpuset recoveries and cache expiries on a fresh executor: the
    property's code, as Extract.v computes it on the model's own observable, is 0 *)
 Theorem c12_history_holds : forall e fs ops,
   validb e fs = true -> hist_hyps e (mkSt fs []) ops -> Forall (plain_op e) ops ->
@@ -125,6 +127,37 @@ Theorem c12_recover : forall e st paths newset,
 Proof. exact main_recover. Qed.
 Print Assumptions c12_recover.
 
+(* the order condition is the only difference between the two sets of hypotheses *)
+Theorem c12_hyps_split : forall e fs ls,
+  hyps_ok e fs ls = true <-> hyps_call e fs ls = true /\ topo_ok e (concat ls) = true.
+Proof. exact hyps_ok_split. Qed.
+Print Assumptions c12_hyps_split.
+
+(* a fact about the caller, proved instead of assumed: whatever the pods and the NodeSLO, the batch
+   cgroupResourcesReconcile builds ([qos dirs with kubepods first]; [pods]; [containers]) lists
+   every parent file before its children *)
+Theorem c12_reconcile_topo : forall ver sh rd,
+  topo_ok (rc_env ver sh) (concat (rc_levels sh rd)) = true.
+Proof. exact rc_topo. Qed.
+Print Assumptions c12_reconcile_topo.
+
+(* the whole property for one cgreconcile round, with the property's own hypotheses only (valid at
+   start and at target, values well-formed): every crash point valid, every file at its target,
+   nothing rewritten needlessly; the invariant is kept *)
+Theorem c12_reconcile_call : forall ver sh rd st,
+  let e := rc_env ver sh in
+  let ls := rc_levels sh rd in
+  hyps_call e (sfs st) ls = true -> coherent (scache st) (sfs st) ->
+  let res := leveled_update e st ls in
+  prop_code e (sfs st) ls (snd res) (sfs (fst res)) = 0
+  /\ every_prefix_valid e (sfs st) (snd res)
+  /\ final_ok (sfs (fst res)) (concat ls)
+  /\ no_redundant e (sfs st) (concat ls) (snd res)
+  /\ validb e (sfs (fst res)) = true
+  /\ coherent (scache (fst res)) (sfs (fst res)).
+Proof. exact main_reconcile_call. Qed.
+Print Assumptions c12_reconcile_call.
+
 (* the order on cpu sets is containment of cpu ids *)
 Theorem c12_cpuset_containment : forall a b,
   Z.land a b = a <-> (forall n, Z.testbit a n = true -> Z.testbit b n = true).
@@ -163,6 +196,18 @@ Theorem c12_d3_regression :
 Proof. exact d3_old_variant_refuted. Qed.
 Print Assumptions c12_d3_regression.
 
+(* regression for the repaired defect (fix ce7ebc1): with the bottom-up pass walking a level
+   forwards, a batch that satisfies every hypothesis (parent before child inside ONE level) passes
+   through an invalid hierarchy; the current pass writes the child first *)
+Theorem c12_level_forward_refuted :
+  hyps_ok fw_env (sfs fw_st) fw_levels = true /\ coherent (scache fw_st) (sfs fw_st)
+  /\ levels_ok fw_env fw_levels = false
+  /\ snd (leveled_update_fwd fw_env fw_st fw_levels) = [(0, 4); (1, 3)]
+  /\ ~ every_prefix_valid fw_env (sfs fw_st) (snd (leveled_update_fwd fw_env fw_st fw_levels))
+  /\ snd (leveled_update fw_env fw_st fw_levels) = [(1, 3); (0, 4)].
+Proof. exact level_forward_refuted. Qed.
+Print Assumptions c12_level_forward_refuted.
+
 (* ---- non-vacuity of the hypotheses ---- *)
 Example c12_hyps_nonvacuous :
   validb ex_env ex_fs = true /\ hist_hyps ex_env (mkSt ex_fs []) ex_ops /\ Forall (plain_op ex_env) ex_ops.
@@ -199,3 +244,16 @@ Example c12_be_hyps_nonvacuous :
   /\ snd (be_apply (mkEnv 1 [(0, 0); (1, 0); (2, 0)] [(1, 0); (2, 1)]) (mkSt [(0, 3); (1, 3); (2, 1)] []) [0; 1; 2] 3 12)
      = [(0, 15); (1, 15); (2, 15); (2, 12); (1, 12); (0, 12)].
 Proof. exact ex_be_hyps. Qed.
+
+(* cgreconcile: one burstable pod, request 10 -> 4 with MinLimitPercent 100: kubepods and
+   kubepods/burstable share the qos level; the forward pass (before ce7ebc1) wrote kubepods first *)
+Example c12_reconcile_nonvacuous :
+  rc_levels rcx_sh rcx_rd = [[mkU 0 4; mkU 3 4]; [mkU 9 4]; [mkU 12 4]]
+  /\ hyps_call (rc_env 1 rcx_sh) rcx_fs (rc_levels rcx_sh rcx_rd) = true
+  /\ levels_ok (rc_env 1 rcx_sh) (rc_levels rcx_sh rcx_rd) = false
+  /\ snd (leveled_update (rc_env 1 rcx_sh) (mkSt rcx_fs []) (rc_levels rcx_sh rcx_rd))
+     = [(12, 4); (9, 4); (3, 4); (0, 4)]
+  /\ snd (leveled_update_fwd (rc_env 1 rcx_sh) (mkSt rcx_fs []) (rc_levels rcx_sh rcx_rd))
+     = [(12, 4); (9, 4); (0, 4); (3, 4)]
+  /\ validb (rc_env 1 rcx_sh) (apply_writes (rc_env 1 rcx_sh) [(12, 4); (9, 4); (0, 4)] rcx_fs) = false.
+Proof. exact ex_reconcile. Qed.
